@@ -145,3 +145,40 @@ package lnwire
 //@   site call DecodeRecordsP2P: assert arg(0) == ret(NewReader) && arg(1) == ret(ProduceRecordsSorted)
 //@   site call NewReader: assert arg(0) == *e
 //@   site call ProduceRecordsSorted: assert arg(0) == recordProducers
+//@
+//@ // ---- decoder totality sweep: index and slice bounds of the remaining functions that slice by a decoded length
+//@ func readBlindedPath
+//@   props C10
+//@   loop * havoc
+//@   bounds-safe
+//@
+//@ func readBlindedHop
+//@   props C10
+//@   loop * havoc
+//@   bounds-safe
+//@
+//@ func decodeIntroductionNode
+//@   props C10
+//@   loop * havoc
+//@   bounds-safe
+//@
+//@ func NewSigFromECDSARawSignature
+//@   props C10
+//@   loop * havoc
+//@   bounds-safe
+//@
+//@ func (s *Sig) ToSignatureBytes
+//@   props C10
+//@   loop * havoc
+//@   bounds-safe
+//@
+//@ func extractCanonicalPadding
+//@   props C10
+//@   loop * havoc
+//@   bounds-safe
+//@   ensures 1 <= len(result) && len(result) <= len(b) + 1
+//@
+//@ func (a *ChannelReestablish) Decode
+//@   props C10
+//@   loop * havoc
+//@   bounds-safe
